@@ -407,4 +407,15 @@ for _f, _id in ((data_order, "C06.DATA-order"), (data_gate, "C06.DATA-gate"), (p
                 (preserve_cutoff, "C06.DATA-preserve-cutoff")):
     _f.rule_id = _id
 
-RULES = [data_order, data_gate, pdom_never, dtab_kinds, dtab_mapref, preserve_cutoff]
+def guard_var_write(ctx, prog):
+    """A var write is an input result like any other: it must reach the watch node's cutoff, not be filtered
+    before it (deferred writes are applied unconditionally at stabilise end). Same rule as C08.GUARD-value,
+    reported under C06."""
+    from .engine import run_relabelled
+    from .c08 import guard_value
+    run_relabelled(ctx, prog, guard_value, "C08.GUARD-value", "C06.GUARD-var-write")
+
+
+guard_var_write.rule_id = "C06.GUARD-var-write"
+
+RULES = [data_order, data_gate, pdom_never, dtab_kinds, dtab_mapref, preserve_cutoff, guard_var_write]
